@@ -243,6 +243,8 @@ func main() {
 			runC33(h)
 		case "C34":
 			runC34(h)
+		case "C36a":
+			runC36a(h)
 		default:
 			h.Infra = append(h.Infra, "unknown property "+prop)
 		}
